@@ -2,17 +2,21 @@ package main
 
 import (
 	"fmt"
-	"os"
+	"strings"
 
-	"github.com/tsawler/tabula"
+	"verifharness/fw"
+	"verifharness/gen/samples"
 )
 
 func main() {
-	fr, _, err := tabula.Open(os.Args[1]).Fragments()
-	fmt.Println(err)
-	for _, f := range fr {
-		fmt.Printf("%7.2f %7.2f w=%6.2f sz=%4.1f %s %q\n", f.X, f.Y, f.Width, f.FontSize, f.FontName, f.Text)
+	s := samples.Make("docx", fw.RandFor(1, "C02", "base", "extra", 0, 0))
+	for _, m := range samples.Unzip(s.Data) {
+		fmt.Println(m.Name, len(m.Data))
+		if strings.Contains(m.Name, "styles") {
+			fmt.Println(string(m.Data)[:1500])
+		}
+		if m.Name == "word/document.xml" {
+			fmt.Println(string(m.Data)[:900])
+		}
 	}
-	t, _, _ := tabula.Open(os.Args[1]).Text()
-	fmt.Println(t)
 }
